@@ -1,62 +1,103 @@
 import FxVerif.Model.C19
 import FxVerif.Proofs.C19
+import FxVerif.Proofs.C19Ledger
 /-!
 # C19 — IBC transfer middleware: inbound credit or error, memo-call sender, refund exactly once, relation removed
 
 Property theorems only.  `step = stepWith genCfg` and `genCfg` is computed from `FxVerif.Gen.C19`, which is regenerated
-from `/repo` on every run; the facts a theorem relies on are discharged by `decide` *inside* its proof, so a change of
-the corresponding source shape stops the theorem from checking.
+from `/repo` on every run; the facts a theorem relies on are discharged by `decide` *inside* its proof (through
+`genCfg_recvOk`, `genCfg_sound`, `genCfg_removes`), so a change of the corresponding source shape stops the theorem from
+checking.  Facts used: key prefixes written / deleted; the guard expression of `Keeper.OnRecvPacket` and the order of
+its blocks; the expressions that flow into the relation key on send, success acknowledgement and refund (which END of
+the channel, which sequence); whom `IbcRefund` credits; the arguments that flow into `IntermediateSender`; the key's
+format string.
 
-`relation_removed_always` needs `ackSuccessDeletePrefix = relationSetPrefix`: it does NOT check on the tree as it
-stands (`AfterIBCAckSuccess` deletes under prefix 7, the record lives under prefix 4) and checks on the repaired tree.
+Two theorems carry a hypothesis that is a genuine limitation of the tree as it stands (both reproduced on the real
+code by the harness, see `fixes/C19-*.md`):
+* `evm_refund_credits_erc20` needs "`IBCCoinToBaseCoin` resolves aliases first, or the aliased voucher of the channel
+  has no bank metadata of its own" — otherwise `alias_metadata_refund_stuck` shows the refund can never be processed;
+* `memo_sender_distinct_per_local_channel_partial` needs "distinct local channels have distinct counterparty channel
+  ids" — otherwise `memo_sender_collision_across_counterparties` shows two counterparties act as one EVM account.
 -/
 namespace FxVerif.Props.C19
 open FxVerif.Model.C19 FxVerif.Proofs.C19
 
+/-! ## 0. the regenerated configuration has the shape the theorems need -/
+
+/-- `Keeper.OnRecvPacket`: the conversion block is guarded by exactly "the received denomination is not FX" (evaluated
+on every denomination class), starts by demanding a hex receiver, calls `IBCCoinToEvm`, is followed by the memo block;
+a coin is recognised as returning home by the packet's SOURCE channel; a keeper error becomes an error acknowledgement -/
+theorem genCfg_recvOk : RecvOk genCfg := by
+  refine ⟨by decide, by decide, ?_, by decide, by decide, by decide, by decide⟩
+  intro d
+  cases d <;> simp [genCfg, FxVerif.Gen.C19.recvGuard, evalGuard, Denom.name?]
+
+/-- the relation is recorded under the key of the transfer itself and both callbacks compute the key from the packet's
+SOURCE channel and its sequence -/
+theorem genCfg_sound : Sound genCfg :=
+  ⟨by decide, by decide, by decide, by decide, by decide, by decide, by decide, by decide⟩
+
+/-- every branch of `OnAcknowledgementPacket` / `OnTimeoutPacket` deletes under the prefix, channel end and sequence the
+record was written under -/
+theorem genCfg_removes : Removes genCfg :=
+  ⟨by decide, by decide, by decide, by decide, by decide, by decide, by decide, by decide, by decide⟩
+
 /-! ## 1. inbound transfer: exact credit in ERC-20 form, or error acknowledgement and nothing changes -/
 
-/-- For every state and every inbound packet addressed to a hex account: either the acknowledgement is a success and
-* bridged token `B`: the receiver's ERC-20 balance grew by exactly `amt`, nobody else's ERC-20 balance changed, native
-  balances are untouched, and the receiver holds neither more voucher nor more base coin than before (for a receiver
-  other than the two module accounts, which hold the locked voucher / escrowed base coin);
-* native coin `F`: the receiver's balance grew by exactly `amt` (receiver other than the channel escrow account, from
-  which the coins come), ERC-20 / voucher / base balances untouched;
-* the token is not an unregistered voucher, the amount is positive, and the packet bookkeeping is untouched;
-or the acknowledgement is an error and the state is exactly the old one.
-The fact `recvErrorReturnsErrorAck` (keeper error ⇒ error acknowledgement) and the call order are taken from the generated facts. -/
-theorem recv_credit_or_error (s : State) (ch : Ch) (t : Tok) (to : Addr) (amt : Nat) (m : Memo) :
-    let r := step s (.recv ch t .hex to amt m)
-    (r.2.isRecv true ∧ t ≠ .X ∧ 0 < amt ∧ r.1.ctl = s.ctl ∧
-      (t = .B →
-        sget r.1.bal.erc (to, ch) = sget s.bal.erc (to, ch) + amt ∧
-        (∀ k, k ≠ (to, ch) → sget r.1.bal.erc k = sget s.bal.erc k) ∧
-        r.1.bal.fx = s.bal.fx ∧
-        (to ≠ transferMod → sget r.1.bal.vch (to, Tok.B, ch) = sget s.bal.vch (to, Tok.B, ch)) ∧
-        (to ≠ erc20Mod → sget r.1.bal.base (to, ch) = sget s.bal.base (to, ch))) ∧
+/-- For every state and every inbound packet addressed to a hex account, on any channel (whatever the counterparty calls
+it), of any denomination class: either the acknowledgement is a success and
+* FX: the receiver's FX balance grew by exactly `amt` (receiver other than the channel escrow account, from which the
+  coins come), no balance of any other denomination changed for anybody, ERC-20 balances untouched;
+* any other coin (native coin with a token pair returning home, voucher with a pair of its own, aliased voucher): the
+  coin has an ERC-20 contract, the receiver's balance THERE grew by exactly `amt`, nobody else's ERC-20 balance changed,
+  no balance of any denomination other than the received one (and, for the aliased token, its base) changed for
+  anybody, and the receiver (other than the module accounts) holds exactly the bank coins it held before — in every
+  denomination: nothing is left in bank form;
+* the coin is not one without an ERC-20 representation, the amount is positive, the packet bookkeeping is untouched;
+or the acknowledgement is an error and the state is exactly the old one. -/
+theorem recv_credit_or_error (s : State) (l : Ch) (t : Tok) (to : Addr) (amt : Nat) (m : Memo) (snd : Nat) :
+    let r := step s (.recv l t .hex to amt m snd)
+    (r.2.isRecv true ∧ 0 < amt ∧ r.1.ctl = s.ctl ∧ t ≠ .U ∧ t ≠ .X ∧ (t = .A → genCfg.aliasFirst = true) ∧
       (t = .F →
-        (to ≠ escrow ch → sget r.1.bal.fx to = sget s.bal.fx to + amt) ∧
-        r.1.bal.erc = s.bal.erc ∧ r.1.bal.vch = s.bal.vch ∧ r.1.bal.base = s.bal.base))
-    ∨ (r.2.isRecv false ∧ r.1 = s) := by
-  have hD : genCfg.recvDiscards = true := by decide
-  have hO : genCfg.recvOrder = true := by decide
-  exact recvWith_credit_or_error genCfg hD hO s ch t to amt m
+        (to ≠ escrow l → sget r.1.bal.bank (to, Denom.fx) = sget s.bal.bank (to, Denom.fx) + amt) ∧
+        (∀ a d, d ≠ Denom.fx → sget r.1.bal.bank (a, d) = sget s.bal.bank (a, d)) ∧
+        r.1.bal.erc = s.bal.erc) ∧
+      (t ≠ .F → ∃ et, ercTokOf t l = some et ∧
+        sget r.1.bal.erc (to, et) = sget s.bal.erc (to, et) + amt ∧
+        (∀ k, k ≠ (to, et) → sget r.1.bal.erc k = sget s.bal.erc k) ∧
+        (∀ a d, d ≠ bankDenom t l → (t = .A → d ≠ Denom.base) → sget r.1.bal.bank (a, d) = sget s.bal.bank (a, d)) ∧
+        (to ≠ transferMod → to ≠ erc20Mod → to ≠ escrow l → ∀ d, sget r.1.bal.bank (to, d) = sget s.bal.bank (to, d))))
+    ∨ (r.2.isRecv false ∧ r.1 = s) :=
+  recvWith_credit_or_error genCfg genCfg_recvOk s l t to amt m snd
 
-/-- a non-native token sent to a bech32 receiver is always answered with an error acknowledgement, state unchanged -/
-theorem recv_bech_nonnative_error (s : State) (ch : Ch) (t : Tok) (to : Addr) (amt : Nat) (m : Memo) (ht : t ≠ .F) :
-    let r := step s (.recv ch t .bech to amt m)
-    r.2.isRecv false ∧ r.1 = s := by
-  have hD : genCfg.recvDiscards = true := by decide
-  have hO : genCfg.recvOrder = true := by decide
-  exact recvWith_bech_error genCfg hD hO s ch t to amt m ht
+/-- a coin other than FX sent to a bech32 (or malformed) receiver is always answered with an error acknowledgement,
+state unchanged -/
+theorem recv_bech_nonnative_error (s : State) (l : Ch) (t : Tok) (k : RKind) (to : Addr) (amt : Nat) (m : Memo) (snd : Nat)
+    (ht : t ≠ .F) (hk : k ≠ .hex) :
+    let r := step s (.recv l t k to amt m snd)
+    r.2.isRecv false ∧ r.1 = s :=
+  recvWith_nonhex_error genCfg genCfg_recvOk s l t k to amt m snd ht hk
 
-/-- a reverting memo call makes the whole receive an error with nothing credited; a succeeding one is counted once -/
-theorem recv_memo_call (s : State) (ch : Ch) (t : Tok) (k : RKind) (to : Addr) (amt : Nat) :
-    (let r := step s (.recv ch t k to amt .callrev); r.2.isRecv false ∧ r.1 = s) ∧
-    (let r := step s (.recv ch t k to amt .callok);
-      (r.2.isRecv true ∧ r.1.bal.marker = s.bal.marker + 1) ∨ (r.2.isRecv false ∧ r.1 = s)) := by
-  have hD : genCfg.recvDiscards = true := by decide
-  have hO : genCfg.recvOrder = true := by decide
-  exact recvWith_memo genCfg hD hO s ch t k to amt
+/-- a reverting memo call makes the whole receive an error with nothing credited; a succeeding one is counted once and
+ran as the sender derived from `data.Sender` and the channel end the generated argument flow names
+(`memo_channel_end`: as the tree stands the packet's SOURCE channel, i.e. the id the counterparty chose) -/
+theorem recv_memo_call (s : State) (l : Ch) (t : Tok) (k : RKind) (to : Addr) (amt : Nat) (snd : Nat) :
+    (let r := step s (.recv l t k to amt .callrev snd); r.2.isRecv false ∧ r.1 = s) ∧
+    (let r := step s (.recv l t k to amt .callok snd);
+      (r.2.isRecv true ∧ r.1.bal.marker = s.bal.marker + 1 ∧
+        r.1.bal.caller = some (genCfg.memoChan.pick (cpOf s.ctl l) l, snd)) ∨
+      (r.2.isRecv false ∧ r.1 = s)) := by
+  have h := recvWith_memo genCfg genCfg_recvOk s l t k to amt snd
+  have hs : genCfg.memoSender = true := by decide
+  simpa [step, hs] using h
+
+/-- the channel that flows into the memo-call sender is one of the two ends of the packet's channel -/
+theorem memo_channel_end : genCfg.memoChan = .src ∨ genCfg.memoChan = .dst := by decide
+
+/-- no receive, whatever its outcome, touches commitments, relation records, sequences or logs of outbound transfers -/
+theorem recv_keeps_bookkeeping (s : State) (l : Ch) (t : Tok) (k : RKind) (to : Addr) (amt : Nat) (m : Memo) (snd : Nat) :
+    (step s (.recv l t k to amt m snd)).1.ctl = s.ctl :=
+  recvWith_ctl genCfg s l t k to amt m snd
 
 /-! ## 2. the memo-call sender cannot be a local account -/
 
@@ -114,14 +155,74 @@ example : ∃ (H : List Char → List Char → (List Char × List Char) ⊕ Nat)
 -- without the no-slash rule the pre-image is ambiguous: the hypothesis is needed
 example : ['a', '/', 'b'] ++ '/' :: ['c'] = ['a'] ++ '/' :: ['b', '/', 'c'] := by decide
 
+/-- (c) which packet fields reach `IntermediateSender` (regenerated argument flow `Keeper.OnRecvPacket` ->
+`HandlerIbcCall` -> `IntermediateSender`): `data.Sender` and the port / channel of ONE end of the packet's channel —
+as the tree stands the SOURCE end, i.e. the identifiers the COUNTERPARTY chose for its side -/
+theorem memo_call_sender_flow {α : Type} (H : List Char → List Char → α) (p : InPkt) :
+    (genCfg.memoChan = .src → memoCallSender H p = H (p.srcPort ++ '/' :: p.srcChannel) p.sender) ∧
+    (genCfg.memoChan = .dst → memoCallSender H p = H (p.dstPort ++ '/' :: p.dstChannel) p.sender) := by
+  have ha : FxVerif.Gen.C19.memoSenderArgs = ["packet.SourcePort", "packet.SourceChannel", "data.Sender"] ∨
+      FxVerif.Gen.C19.memoSenderArgs = ["packet.GetSourcePort()", "packet.GetSourceChannel()", "data.Sender"] ∨
+      FxVerif.Gen.C19.memoSenderArgs = ["packet.DestinationPort", "packet.DestinationChannel", "data.Sender"] ∨
+      FxVerif.Gen.C19.memoSenderArgs = ["packet.GetDestPort()", "packet.GetDestChannel()", "data.Sender"] := by decide
+  rcases ha with ha | ha | ha | ha <;>
+    simp [memoCallSender, ha, inPktVal, intermediate_sender_shape, genCfg, chanSelOf]
+
+/-- (d) a memo call never runs as a local account (same cryptographic hypotheses as (b)) -/
+theorem memo_call_sender_not_local {α κ : Type} (H : List Char → List Char → α) (acct : κ → α)
+    (hSep : ∀ x y pk, H x y ≠ acct pk) (p : InPkt) : ∀ pk, memoCallSender H p ≠ acct pk := by
+  intro pk
+  rcases memo_channel_end with h | h
+  · rw [(memo_call_sender_flow H p).1 h]; exact hSep _ _ pk
+  · rw [(memo_call_sender_flow H p).2 h]; exact hSep _ _ pk
+
+/-- (e) full strength, for a tree that derives the sender from OUR end of the channel (`hdst`; false as the tree
+stands): memo calls of packets that arrive on different local channels, or from different original senders, run as
+different accounts (collision resistance `hInj` as in (b)) -/
+theorem memo_sender_distinct_per_local_channel {α : Type} (H : List Char → List Char → α)
+    (hInj : ∀ x y x' y', H x y = H x' y' → x = x' ∧ y = y') (hdst : genCfg.memoChan = .dst) (p p' : InPkt)
+    (hp : '/' ∉ p.dstPort) (hp' : '/' ∉ p'.dstPort)
+    (hne : p.dstChannel ≠ p'.dstChannel ∨ p.sender ≠ p'.sender) : memoCallSender H p ≠ memoCallSender H p' := by
+  intro h
+  rw [(memo_call_sender_flow H p).2 hdst, (memo_call_sender_flow H p').2 hdst] at h
+  obtain ⟨h1, h2⟩ := hInj _ _ _ _ h
+  rcases hne with hne | hne
+  · exact hne (prefix_inj _ _ _ _ hp hp' h1).2
+  · exact hne h2
+
+/-- (f) LIMITATION of the tree as it stands (`hsrc`; reproduced on the real code, `fixes/C19-memo-sender-channel.md`):
+the derived sender does not depend on OUR channel.  Two packets that arrive on different local channels from two
+counterparties which both call their end the same, with the same sender string, run as the same EVM account — for
+every hash function. -/
+theorem memo_sender_collision_across_counterparties {α : Type} (H : List Char → List Char → α)
+    (hsrc : genCfg.memoChan = .src) (p p' : InPkt)
+    (hport : p.srcPort = p'.srcPort) (hch : p.srcChannel = p'.srcChannel) (hs : p.sender = p'.sender) :
+    memoCallSender H p = memoCallSender H p' := by
+  rw [(memo_call_sender_flow H p).1 hsrc, (memo_call_sender_flow H p').1 hsrc, hport, hch, hs]
+
+-- … and such packets exist on different local channels
+example : ∃ p p' : InPkt, p.dstChannel ≠ p'.dstChannel ∧ p.srcPort = p'.srcPort ∧ p.srcChannel = p'.srcChannel ∧ p.sender = p'.sender :=
+  ⟨⟨['t'], ['c', '1'], ['t'], ['c', '0'], ['s']⟩, ⟨['t'], ['c', '1'], ['t'], ['c', '2'], ['s']⟩, by decide, rfl, rfl, rfl⟩
+
+/-- what does hold as the tree stands: when distinct local channels have distinct counterparty ids (the extra hypothesis
+`hcp`), memo calls of packets that arrive on different local channels run as different accounts -/
+theorem memo_sender_distinct_per_local_channel_partial {α : Type} (H : List Char → List Char → α)
+    (hInj : ∀ x y x' y', H x y = H x' y' → x = x' ∧ y = y') (hsrc : genCfg.memoChan = .src) (p p' : InPkt)
+    (hp : '/' ∉ p.srcPort) (hp' : '/' ∉ p'.srcPort)
+    (hcp : p.dstChannel ≠ p'.dstChannel → p.srcChannel ≠ p'.srcChannel)
+    (hne : p.dstChannel ≠ p'.dstChannel) : memoCallSender H p ≠ memoCallSender H p' := by
+  intro h
+  rw [(memo_call_sender_flow H p).1 hsrc, (memo_call_sender_flow H p').1 hsrc] at h
+  obtain ⟨h1, _⟩ := hInj _ _ _ _ h
+  exact hcp hne (prefix_inj _ _ _ _ hp hp' h1).2
+
 /-! ## 3. refunds: exactly once, to the sender, in ERC-20 form -/
 
-theorem genCfg_sound : Sound genCfg := ⟨by decide, by decide, by decide⟩
-
-/-- For the state reached from `init` by ANY list of operations:
-* the refund log has no two entries for the same (channel, sequence);
+/-- For the state reached from `init` by ANY list of operations (any channel table, any interleaving on any number of
+channels, equal sequence numbers on different channels, duplicated and replayed settlements):
+* the refund log has no two entries for the same (local channel, sequence);
 * a refunded transfer is no longer committed and was never acknowledged successfully (and vice versa);
-* a refund of a transfer started from the EVM names that transfer's sender, token and amount, and for a bridged
+* a refund of a transfer started from the EVM names that transfer's sender, token and amount, and for the aliased
   token it was made in ERC-20 form. -/
 theorem refund_exactly_once (ops : List Op) :
     let c := (run init ops).ctl
@@ -129,113 +230,326 @@ theorem refund_exactly_once (ops : List Op) :
     (∀ r ∈ c.refundLog, (∀ x ∈ c.commits, x.1 ≠ r.key) ∧ r.key ∉ c.ackedOk) ∧
     (∀ k ∈ c.ackedOk, ∀ r ∈ c.refundLog, r.key ≠ k) ∧
     (∀ r ∈ c.refundLog, ∀ e ∈ c.evmSent, r.key = e.key →
-      r.sender = e.sender ∧ r.tok = e.tok ∧ r.amt = e.amt ∧ (e.tok = .B → r.erc20Form = true)) := by
+      r.sender = e.sender ∧ r.tok = e.tok ∧ r.amt = e.amt ∧ (e.tok = .A → r.erc20Form = true)) := by
   have h := run_inv genCfg genCfg_sound ops init inv_init
   refine ⟨h.nodup, fun r hr => ⟨h.rNC r hr, h.rNA r hr⟩, ?_, h.rE⟩
   intro k hk r hr he
   exact h.rNA r hr (he ▸ hk)
 
 /-- The refund is real, not only logged: in any reachable state, an error acknowledgement or a timeout of an in-flight
-EVM-originated transfer of a bridged token raises the sender's ERC-20 balance by exactly the sent amount, leaves him
-no extra voucher and no extra base coin (sender other than the module accounts), and appends exactly one log entry. -/
+EVM-originated transfer of the aliased token raises the sender's ERC-20 balance by exactly the sent amount, changes
+nobody else's ERC-20 balance, leaves the sender (other than the module accounts) with exactly the bank coins he had —
+in EVERY denomination —, appends exactly one log entry and removes exactly the transfer's own record.
+`hmeta`: alias resolution comes first in `IBCCoinToBaseCoin` (a fact of the tree; false as it stands), or the aliased
+voucher of that channel has no bank metadata of its own; see `alias_metadata_refund_stuck` for the other case. -/
 theorem evm_refund_credits_erc20 (ops : List Op) (e : SentRec) (mode : Mode) (hm : mode ≠ .ackOk)
-    (he : e ∈ (run init ops).ctl.evmSent) (hB : e.tok = .B)
-    (hc : ∃ x ∈ (run init ops).ctl.commits, x.1 = e.key) :
+    (he : e ∈ (run init ops).ctl.evmSent) (hB : e.tok = .A)
+    (hc : ∃ x ∈ (run init ops).ctl.commits, x.1 = e.key)
+    (hmeta : genCfg.aliasFirst = true ∨ e.ch ∉ (run init ops).ctl.vmeta) :
     let s := run init ops
     let r := step s (.settle e.ch e.seq mode)
     r.2.isDone ∧
-    sget r.1.bal.erc (e.sender, e.ch) = sget s.bal.erc (e.sender, e.ch) + e.amt ∧
-    (e.sender ≠ transferMod → sget r.1.bal.vch (e.sender, Tok.B, e.ch) = sget s.bal.vch (e.sender, Tok.B, e.ch)) ∧
-    (e.sender ≠ erc20Mod → sget r.1.bal.base (e.sender, e.ch) = sget s.bal.base (e.sender, e.ch)) ∧
-    r.1.ctl.refundLog = ⟨e.ch, e.seq, e.sender, .B, e.amt, true⟩ :: s.ctl.refundLog := by
+    sget r.1.bal.erc (e.sender, ETok.base) = sget s.bal.erc (e.sender, ETok.base) + e.amt ∧
+    (∀ k, k ≠ (e.sender, ETok.base) → sget r.1.bal.erc k = sget s.bal.erc k) ∧
+    (e.sender ≠ transferMod → e.sender ≠ erc20Mod → ∀ d, sget r.1.bal.bank (e.sender, d) = sget s.bal.bank (e.sender, d)) ∧
+    r.1.ctl.refundLog = ⟨e.ch, e.seq, e.sender, .A, e.amt, true⟩ :: s.ctl.refundLog ∧
+    r.1.ctl.rel = dropRel s.ctl.rel (e.ch, e.seq) := by
   have h := run_inv genCfg genCfg_sound ops init inv_init
   have hE : genCfg.ackErrRefunds = true := by decide
   have hT : genCfg.timeoutRefunds = true := by decide
-  exact settle_refund_credits genCfg genCfg_sound hE hT (run init ops) e mode hm h he hB hc
+  have hTo : genCfg.refundToSender = true := by decide
+  exact settle_refund_credits genCfg genCfg_sound hE hT hTo (run init ops) e mode hm h he hB hc hmeta
 
-/-! ## 4. the relation record is removed on success, failure and timeout alike -/
+/-- Round trip: in any reachable state, a transfer of the aliased token started from the EVM that is then rejected or
+times out leaves EVERY ERC-20 balance of EVERYBODY, every bank balance of the sender (other than the module accounts)
+and the relation store exactly as they were before the transfer started: the refund gives back exactly what the send
+took, in the form it took it, and nothing else.  (`hmeta` as in `evm_refund_credits_erc20`.) -/
+theorem evm_send_refund_roundtrip (ops : List Op) (l : Ch) (a : Addr) (amt : Nat) (mode : Mode) (hm : mode ≠ .ackOk)
+    (hmeta : genCfg.aliasFirst = true ∨ l ∉ (run init ops).ctl.vmeta)
+    (hok : (step (run init ops) (.send l a .A amt)).2 ≠ .fail) :
+    let s := run init ops
+    let r := step (step s (.send l a .A amt)).1 (.settle l (nextSeq s.ctl l) mode)
+    r.2.isDone ∧ (∀ k, sget r.1.bal.erc k = sget s.bal.erc k) ∧
+    (a ≠ transferMod → a ≠ erc20Mod → ∀ d, sget r.1.bal.bank (a, d) = sget s.bal.bank (a, d)) ∧
+    r.1.ctl.rel = s.ctl.rel := by
+  have h := run_inv genCfg genCfg_sound ops init inv_init
+  have hE : genCfg.ackErrRefunds = true := by decide
+  have hT : genCfg.timeoutRefunds = true := by decide
+  have hTo : genCfg.refundToSender = true := by decide
+  exact send_refund_roundtrip genCfg genCfg_sound hE hT hTo (run init ops) h l a amt mode hm hmeta hok
 
-/-- error acknowledgement and timeout (holds on the tree as it stands and on the repaired tree): for every state and
-every processed (`done`) error ack / timeout of (ch, seq), the relation record of (ch, seq) is gone afterwards -/
-theorem relation_removed_on_failure_partial (s : State) (ch : Ch) (seq : Seq) (mode : Mode) (hm : mode ≠ .ackOk) :
-    let r := step s (.settle ch seq mode)
-    r.2.isDone → (ch, seq) ∉ r.1.ctl.rel := by
+/-- A transfer that was NOT started from the EVM (plain `MsgTransfer` of FX or of a native coin, with or without a
+token pair), and a transfer of FX — the EVM's own coin — started from the EVM, is refunded in the form it left in: in any reachable state a processed error acknowledgement / timeout puts
+exactly the amount back on the sender's bank balance (sender other than the escrow account), changes no other
+denomination of anybody, changes no ERC-20 balance, and logs a refund that is not in ERC-20 form — whatever EVM-started
+transfers are in flight on whatever channels (their records are never mistaken for this transfer's). -/
+theorem cosmos_refund_in_bank_form (ops : List Op) (l : Ch) (seq : Seq) (p : Pkt) (mode : Mode) (hm : mode ≠ .ackOk)
+    (hlk : lookup (l, seq) (run init ops).ctl.commits = some p) (hev : p.evm = false ∨ p.tok = .F) :
+    let s := run init ops
+    let r := step s (.settle l seq mode)
+    r.2.isDone →
+      r.1.bal.erc = s.bal.erc ∧
+      (p.sender ≠ escrow l → sget r.1.bal.bank (p.sender, bankDenom p.tok l) = sget s.bal.bank (p.sender, bankDenom p.tok l) + p.amt) ∧
+      (∀ a d, d ≠ bankDenom p.tok l → sget r.1.bal.bank (a, d) = sget s.bal.bank (a, d)) ∧
+      r.1.ctl.refundLog = ⟨l, seq, p.sender, p.tok, p.amt, false⟩ :: s.ctl.refundLog := by
+  obtain ⟨_, hl⟩ := run_life genCfg genCfg_sound genCfg_removes ops init inv_init life_init
+  have hE : genCfg.ackErrRefunds = true := by decide
+  have hT : genCfg.timeoutRefunds = true := by decide
+  have hG : genCfg.refundGuarded = true := by decide
+  exact settle_refund_cosmos genCfg genCfg_sound hE hT hG (run init ops) l seq p mode hm hl hlk hev
+
+/-- LIMITATION of the tree as it stands (reproduced on the real code, `fixes/C19-alias-metadata-refund.md`): when the
+aliased voucher of the channel has bank metadata of its own (the transfer module writes it for every denom trace in
+`InitGenesis` and in its `MigrateDenomMetadata` migration) and `IBCCoinToBaseCoin` asks `ManyToOne` first (`haf`), the
+refund callback of an in-flight EVM-originated transfer of the aliased token fails in every reachable state: the
+relayer's transaction is rolled back, nothing is refunded, and it fails again on every retry. -/
+theorem alias_metadata_refund_stuck (haf : genCfg.aliasFirst = false) (ops : List Op) (e : SentRec) (mode : Mode)
+    (hm : mode ≠ .ackOk) (he : e ∈ (run init ops).ctl.evmSent) (hB : e.tok = .A)
+    (hc : ∃ x ∈ (run init ops).ctl.commits, x.1 = e.key) (hmeta : e.ch ∈ (run init ops).ctl.vmeta) :
+    let s := run init ops
+    step s (.settle e.ch e.seq mode) = (s, .stuck s.ctl.rel) := by
+  have h := run_inv genCfg genCfg_sound ops init inv_init
+  have hE : genCfg.ackErrRefunds = true := by decide
+  have hT : genCfg.timeoutRefunds = true := by decide
+  exact settle_refund_stuck genCfg genCfg_sound hE hT (run init ops) e mode hm h he hB hc ⟨haf, hmeta⟩
+
+/-- witness (tree independent): metadata on the voucher of channel 0, transfer of 40 started from the EVM, timeout -/
+theorem alias_metadata_refund_stuck_witness :
+    let ops := [Op.chan 0 1, .fund 5 .A 0 100, .vmeta 0, .send 0 5 .A 40]
+    stepWith (refCfg 4) (runWith (refCfg 4) init ops) (.settle 0 1 .timeout) =
+      (runWith (refCfg 4) init ops, .stuck [(0, 1)]) ∧
+    (stepWith { refCfg 4 with aliasFirst := true } (runWith { refCfg 4 with aliasFirst := true } init ops)
+      (.settle 0 1 .timeout)).2 = .done 100 0 0 0 100 100 [] := by
+  constructor <;> decide
+
+/-! ## 4. the relation record is removed on success, failure and timeout alike — that record and no other -/
+
+/-- error acknowledgement and timeout: for every state and every processed (`done`) error ack / timeout of (l, seq), the
+relation store afterwards is the old one minus exactly the record of (l, seq) -/
+theorem relation_removed_on_failure_partial (s : State) (l : Ch) (seq : Seq) (mode : Mode) (hm : mode ≠ .ackOk) :
+    let r := step s (.settle l seq mode)
+    r.2.isDone → (l, seq) ∉ r.1.ctl.rel ∧ r.1.ctl.rel = dropRel s.ctl.rel (l, seq) := by
   have hE : genCfg.ackErrRefunds = true := by decide
   have hT : genCfg.timeoutRefunds = true := by decide
   have hS : genCfg.refundSees = true := by decide
-  exact settle_removes_failure genCfg hE hT hS s ch seq mode hm
+  have hC : genCfg.refundChan = .src := by decide
+  have hQ : genCfg.refundSeq = true := by decide
+  have hP : genCfg.deleteReports = true := by decide
+  intro r hd
+  have := settle_removes_failure genCfg hE hT hS hC hQ hP s l seq mode hm hd
+  refine ⟨?_, this⟩
+  show (l, seq) ∉ (stepWith genCfg s (.settle l seq mode)).1.ctl.rel
+  rw [this]; exact not_mem_dropRel _ _
 
 /-- C19, last clause, full strength: for every state (in particular every state reachable from `init`) and every
-processed success ack, error ack or timeout of (ch, seq), the relation record is gone afterwards.
-Needs the generated fact `ackSuccessDeletePrefix = relationSetPrefix` — false on the unrepaired tree. -/
-theorem relation_removed_always (s : State) (ch : Ch) (seq : Seq) (mode : Mode) :
-    let r := step s (.settle ch seq mode)
-    r.2.isDone → (ch, seq) ∉ r.1.ctl.rel := by
-  have hfix : FxVerif.Gen.C19.ackSuccessDeletePrefix = FxVerif.Gen.C19.relationSetPrefix := by decide
-  have hcall : genCfg.ackOkCallsAfter = true := by decide
-  have hOk : genCfg.ackOkRemoves = true := by
-    simp only [Cfg.ackOkRemoves, hcall, Bool.true_and, beq_iff_eq]
-    exact hfix
-  have hE : genCfg.ackErrRefunds = true := by decide
-  have hT : genCfg.timeoutRefunds = true := by decide
-  have hS : genCfg.refundSees = true := by decide
-  exact settle_removes genCfg hOk hE hT hS s ch seq mode
+processed success ack, error ack or timeout of (l, seq), the relation record is gone afterwards.
+Needs the generated facts `ackSuccessDeletePrefix = relationSetPrefix` and "the success branch passes the packet's
+SOURCE channel and its sequence". -/
+theorem relation_removed_always (s : State) (l : Ch) (seq : Seq) (mode : Mode) :
+    let r := step s (.settle l seq mode)
+    r.2.isDone → (l, seq) ∉ r.1.ctl.rel :=
+  settle_removes genCfg genCfg_removes s l seq mode
+
+/-- … and no other record is touched: the relation store afterwards is the old one minus exactly the record of the
+settled (local channel, sequence) — whatever other transfers are in flight, on whatever channels, with whatever
+sequence numbers and counterparty channel ids -/
+theorem settle_touches_only_its_record (s : State) (l : Ch) (seq : Seq) (mode : Mode) :
+    let r := step s (.settle l seq mode)
+    r.2.isDone → r.1.ctl.rel = dropRel s.ctl.rel (l, seq) :=
+  settle_frame genCfg genCfg_removes s l seq mode
 
 /-- the same over reachable states, as the property is worded -/
-theorem relation_removed_always_reachable (ops : List Op) (ch : Ch) (seq : Seq) (mode : Mode) :
-    let r := step (run init ops) (.settle ch seq mode)
-    r.2.isDone → (ch, seq) ∉ r.1.ctl.rel :=
-  relation_removed_always (run init ops) ch seq mode
+theorem relation_removed_always_reachable (ops : List Op) (l : Ch) (seq : Seq) (mode : Mode) :
+    let r := step (run init ops) (.settle l seq mode)
+    r.2.isDone → (l, seq) ∉ r.1.ctl.rel :=
+  relation_removed_always (run init ops) l seq mode
 
-/-- the generated configuration is the reference configuration at the generated success-ack delete prefix -/
-theorem genCfg_is_ref : genCfg = refCfg FxVerif.Gen.C19.ackSuccessDeletePrefix := by decide
+/-- In every reachable state the relation store holds EXACTLY the records of the in-flight EVM-originated transfers of
+the aliased token: no record is ever missing while its transfer is in flight, none outlives its transfer, none belongs
+to anything else. -/
+theorem relation_records_are_inflight (ops : List Op) (k : Ch × Seq) :
+    let c := (run init ops).ctl
+    k ∈ c.rel ↔ ∃ e ∈ c.evmSent, e.key = k ∧ e.tok = .A ∧ ∃ x ∈ c.commits, x.1 = k := by
+  obtain ⟨hi, hl⟩ := run_life genCfg genCfg_sound genCfg_removes ops init inv_init life_init
+  constructor
+  · intro hk
+    obtain ⟨x, hx, hxk, hev, hnF⟩ := hl.relC k hk
+    obtain ⟨⟨e, he, hek, het⟩, htok⟩ := hl.cE x hx hev
+    refine ⟨e, he, by rw [hek, hxk], ?_, x, hx, hxk⟩
+    rcases htok with h | h
+    · exact absurd h hnF
+    · rw [het, h]
+  · rintro ⟨e, he, hek, hA, x, hx, hxk⟩
+    rw [← hek]
+    exact hi.eRel e he hA ⟨x, hx, by rw [hxk, hek]⟩
+
+/-- In every reachable state every transfer started from the EVM is in exactly one of three places: still committed,
+acknowledged successfully, or refunded (at least one: this theorem; at most one: `refund_exactly_once`). -/
+theorem evm_transfer_settled_one_way (ops : List Op) :
+    let c := (run init ops).ctl
+    ∀ e ∈ c.evmSent, (∃ x ∈ c.commits, x.1 = e.key) ∨ e.key ∈ c.ackedOk ∨ (∃ r ∈ c.refundLog, r.key = e.key) :=
+  (run_life genCfg genCfg_sound genCfg_removes ops init inv_init life_init).2.eLife
+
+/-- the generated configuration is the reference configuration at the generated success-ack delete prefix (and the two
+facts the proposed repairs change: alias resolution order, channel end of the memo-call sender) -/
+theorem genCfg_is_ref : genCfg = { refCfg FxVerif.Gen.C19.ackSuccessDeletePrefix with
+    aliasFirst := genCfg.aliasFirst, memoChan := genCfg.memoChan } := by decide
 
 /-- witness (tree independent, prefix as an explicit parameter): with the success-ack delete under prefix 7 the record
 of a successfully acknowledged EVM-originated transfer is still there — and stays there for ever, see below -/
 theorem success_ack_keeps_relation_witness :
-    let ops := [Op.fund 5 .B 0 100, .send 0 5 .B 40, .settle 0 1 .ackOk]
+    let ops := [Op.fund 5 .A 0 100, .send 0 5 .A 40, .settle 0 1 .ackOk]
     (0, 1) ∈ (runWith (refCfg 7) init ops).ctl.rel ∧
-    (stepWith (refCfg 7) (runWith (refCfg 7) init [Op.fund 5 .B 0 100, .send 0 5 .B 40]) (.settle 0 1 .ackOk)).2.isDone := by
+    (stepWith (refCfg 7) (runWith (refCfg 7) init [Op.fund 5 .A 0 100, .send 0 5 .A 40]) (.settle 0 1 .ackOk)).2.isDone := by
   refine ⟨by decide, ?_⟩
-  exact ⟨60, 0, 0, [(0, 1)], by decide⟩
+  exact ⟨60, 0, 0, 0, 60, 60, [(0, 1)], by decide⟩
 
 /-- with the delete under prefix 4 (the repaired call) the same run leaves no record -/
 theorem success_ack_removes_relation_fixed :
-    (runWith (refCfg 4) init [Op.fund 5 .B 0 100, .send 0 5 .B 40, .settle 0 1 .ackOk]).ctl.rel = [] := by decide
+    (runWith (refCfg 4) init [Op.fund 5 .A 0 100, .send 0 5 .A 40, .settle 0 1 .ackOk]).ctl.rel = [] := by decide
 
 /-- general form of the defect: whenever the success-ack delete prefix differs from the prefix the record is written
 under, a success ack of a committed transfer leaves the relation store exactly as it was -/
-theorem success_ack_keeps_relation_general (cfg : Cfg) (hne : cfg.ackDelPrefix ≠ cfg.setPrefix) (s : State) (ch : Ch)
-    (seq : Seq) : (stepWith cfg s (.settle ch seq .ackOk)).1.ctl.rel = s.ctl.rel := by
-  exact settle_ackOk_keeps cfg hne s ch seq
+theorem success_ack_keeps_relation_general (cfg : Cfg) (hne : cfg.ackDelPrefix ≠ cfg.setPrefix) (s : State) (l : Ch)
+    (seq : Seq) : (stepWith cfg s (.settle l seq .ackOk)).1.ctl.rel = s.ctl.rel := by
+  exact settle_ackOk_keeps cfg hne s l seq
 
-/-- a stale record can never be removed later: once a transfer is settled its commitment is gone, and every later
-ack / timeout of it is a no-op -/
-theorem settled_is_final (cfg : Cfg) (s : State) (ch : Ch) (seq : Seq) (mode mode' : Mode) :
-    let s' := (stepWith cfg s (.settle ch seq mode)).1
-    stepWith cfg s' (.settle ch seq mode') = (s', .noop s'.ctl.rel) := by
-  exact settle_twice cfg s ch seq mode mode'
+/-- why the channel END matters (tree independent): our channel-0 <-> their channel-1, our channel-1 <-> their
+channel-0, two EVM-started transfers in flight with the same sequence.  If the success branch deleted under the packet's
+DESTINATION channel, acknowledging the transfer on channel 0 would leave its own record and delete the record of the
+transfer on channel 1, whose later timeout is then refunded in bank form; with the source channel both are right. -/
+theorem crossed_channels_wrong_end_witness :
+    let ops := [Op.chan 0 1, .chan 1 0, .fund 5 .A 0 100, .fund 6 .A 1 100, .send 0 5 .A 40, .send 1 6 .A 30,
+      .settle 0 1 .ackOk, .settle 1 1 .timeout]
+    let bad := runWith { refCfg 4 with ackOkChan := .dst } init ops
+    let good := runWith (refCfg 4) init ops
+    bad.ctl.rel = [(0, 1)] ∧ bad.ctl.refundLog = [⟨1, 1, 6, .A, 30, false⟩] ∧ sget bad.bal.erc (6, ETok.base) = 70 ∧
+      sget bad.bal.bank (6, Denom.base) = 30 ∧
+    good.ctl.rel = [] ∧ good.ctl.refundLog = [⟨1, 1, 6, .A, 30, true⟩] ∧ sget good.bal.erc (6, ETok.base) = 100 ∧
+      sget good.bal.bank (6, Denom.base) = 0 := by
+  decide
 
--- non-vacuity: a `done` error ack, a `done` timeout and a `done` success ack exist on reachable states
-example : (step (run init [.fund 5 .B 0 100, .send 0 5 .B 40]) (.settle 0 1 .ackErr)).2 = .done 100 0 0 [] := by decide
-example : (step (run init [.fund 5 .B 0 100, .send 0 5 .B 40]) (.settle 0 1 .timeout)).2 = .done 100 0 0 [] := by decide
-example : (step (run init [.fund 5 .B 0 100, .send 0 5 .B 40]) (.settle 0 1 .ackOk)).2.isDone :=
-  ⟨60, 0, 0, _, rfl⟩
-example : (step (run init [.fund 5 .B 0 100]) (.recv 0 .B .hex 9 7 .callok)).2 = .recv true 0 0 0 7 1 := by decide
-example : (step (run init [.fund 5 .B 0 100]) (.recv 0 .X .hex 9 7 .none)).2 = .recv false 0 0 0 0 0 := by decide
-example : (run init [.fund 5 .B 0 100, .send 0 5 .B 40, .settle 0 1 .ackErr]).ctl.refundLog = [⟨0, 1, 5, .B, 40, true⟩] := by
+/-- why the GUARD matters (tree independent): a native coin with a token pair comes home to a hex account.  Under the
+guard `denom != FX` it is credited as ERC-20 and nothing stays in bank form; under a guard that only looks for the
+`ibc/` prefix the acknowledgement is a success and the coin stays in bank form. -/
+theorem returning_native_coin_guard_witness :
+    let ops := [Op.chan 0 7, .fund 5 .N 0 100, .csend 0 5 .N 60, .settle 0 1 .ackOk]
+    (stepWith (refCfg 4) (runWith (refCfg 4) init ops) (.recv 0 .N .hex 9 60 .none 0)).2 = .recv true 0 60 0 0 60 0 none ∧
+    (stepWith { refCfg 4 with recvGuard := .hasPrefix "ibc/" } (runWith (refCfg 4) init ops) (.recv 0 .N .hex 9 60 .none 0)).2 =
+      .recv true 60 0 0 0 0 0 none := by
+  constructor <;> decide
+
+/-- a processed settlement (or one that found nothing to process) is final: every later acknowledgement or timeout of
+the same (channel, sequence), duplicated or replayed, is a no-op.  (A settlement whose callback failed was rolled back
+by IBC core and can be retried: `alias_metadata_refund_stuck`.) -/
+theorem settled_is_final (cfg : Cfg) (s : State) (l : Ch) (seq : Seq) (mode mode' : Mode)
+    (hns : ¬ (stepWith cfg s (.settle l seq mode)).2.isStuck) :
+    let s' := (stepWith cfg s (.settle l seq mode)).1
+    stepWith cfg s' (.settle l seq mode') = (s', .noop s'.ctl.rel) := by
+  exact settle_twice cfg s l seq mode mode' hns
+
+/-! ## 5. the relation key -/
+
+/-- the generated format string and argument order give `channel ++ "/" ++ decimal(sequence)` -/
+theorem relation_key_text (channel : List Char) (sequence : Nat) :
+    relKeyText channel sequence = channel ++ '/' :: Nat.toDigits 10 sequence := by
+  have hf : FxVerif.Gen.C19.relationKeyFmt.toList = ['%', 's', '/', '%', 'd'] := by decide
+  have ha : FxVerif.Gen.C19.relationKeyFmtArgs = ["#0", "#1"] := by decide
+  simp [relKeyText, hf, ha, sprintfA, FArg.text]
+
+/-- different (channel, sequence) pairs have different keys — for ALL channel strings: the decimal sequence contains
+no `/`, so the key splits uniquely at its last `/` -/
+theorem relation_key_injective (c c' : List Char) (n n' : Nat) (h : relKeyText c n = relKeyText c' n') :
+    c = c' ∧ n = n' := by
+  rw [relation_key_text, relation_key_text] at h
+  have := suffix_inj c c' _ _ (slash_not_in_digits n) (slash_not_in_digits n') h
+  exact ⟨this.1, toDigits_inj this.2⟩
+
+/-- a transfer started from the EVM with a token other than FX records exactly its own (local channel, sequence); any
+other successful transfer records nothing -/
+theorem send_records_own_key (s : State) (l : Ch) (a : Addr) (t : Tok) (amt : Nat) :
+    ((step s (.send l a t amt)).2 ≠ Out.fail →
+      (step s (.send l a t amt)).1.ctl.rel = (if t = Tok.F then s.ctl.rel else (l, nextSeq s.ctl l) :: s.ctl.rel)) ∧
+    (step s (.csend l a t amt)).1.ctl.rel = s.ctl.rel := by
+  have h1 : genCfg.sendSetsRel = true := by decide
+  have h2 : genCfg.sendKeyOwn = true := by decide
+  constructor
+  · simp only [step, stepWith, doSend]
+    cases sendBal s.bal l a t amt true with
+    | none => intro h; exact absurd rfl h
+    | some b =>
+      intro _
+      by_cases hF : t = .F
+      · simp [sendCtl, sendKey, hF]
+      · simp [sendCtl, sendKey, hF, h1, h2]
+  · simp only [step, stepWith, doSend]
+    cases sendBal s.bal l a t amt false with
+    | none => rfl
+    | some b => simp [sendCtl, sendKey]
+
+/-! ## 6. the ledger -/
+
+/-- Every ERC-20 token in existence is backed, one to one, by a coin escrowed in the erc20 module account — in every
+state reachable by ANY list of operations on user accounts (receives of every denomination class and outcome, EVM- and
+cosmos-started transfers, success / error acknowledgements, timeouts, duplicated and failing settlements, on any
+channels), for every token contract, and for EVERY configuration of the callbacks (the statement does not depend on the
+regenerated facts): no credit and no refund ever mints an ERC-20 token without locking its coin, and none is ever
+minted twice for one coin.  `supply t` is the sum of all ERC-20 balances of token `t`; `userOnly`: senders and receivers
+are not module accounts (the bank keeper blocks those). -/
+theorem erc20_supply_backed (cfg : Cfg) (ops : List Op) (hu : ∀ op ∈ ops, userOnly op) (t : ETok) :
+    supply t (runWith cfg init ops).bal.erc = sget (runWith cfg init ops).bal.bank (erc20Mod, denomOfE t) :=
+  (backed_run cfg ops init hu backed_init (fun _ hx => absurd hx List.not_mem_nil)).eq t
+
+-- non-vacuity: a run with credits, a refund and a success acknowledgement; supply of the aliased token's ERC-20 is 130
+example : (∀ op ∈ [Op.chan 0 1, .fund 5 .A 0 100, .fund 6 .A 0 70, .send 0 5 .A 40, .send 0 6 .A 30, .settle 0 1 .timeout,
+      .settle 0 2 .ackOk, .recv 0 .V .hex 7 9 .none 0], userOnly op) ∧
+    supply .base (run init [Op.chan 0 1, .fund 5 .A 0 100, .fund 6 .A 0 70, .send 0 5 .A 40, .send 0 6 .A 30,
+      .settle 0 1 .timeout, .settle 0 2 .ackOk, .recv 0 .V .hex 7 9 .none 0]).bal.erc = 140 ∧
+    supply (.v 0) (run init [Op.chan 0 1, .fund 5 .A 0 100, .fund 6 .A 0 70, .send 0 5 .A 40, .send 0 6 .A 30,
+      .settle 0 1 .timeout, .settle 0 2 .ackOk, .recv 0 .V .hex 7 9 .none 0]).bal.erc = 9 := by
+  refine ⟨?_, by decide, by decide⟩
+  intro op hop
+  simp only [List.mem_cons, List.not_mem_nil, or_false] at hop
+  rcases hop with h | h | h | h | h | h | h | h <;> subst h <;> simp [userOnly, userAddr]
+
+-- non-vacuity: `done` settlements, successful and failing receives of every class exist on reachable states
+example : (step (run init [.chan 0 1, .fund 5 .A 0 100, .send 0 5 .A 40]) (.settle 0 1 .ackErr)).2 = .done 100 0 0 0 100 100 [] := by
+  decide
+example : (step (run init [.chan 0 1, .fund 5 .A 0 100, .send 0 5 .A 40]) (.settle 0 1 .timeout)).2 = .done 100 0 0 0 100 100 [] := by
+  decide
+example : (step (run init [.chan 0 1, .fund 5 .A 0 100, .send 0 5 .A 40]) (.settle 0 1 .ackOk)).2.isDone :=
+  ⟨60, 0, 0, 0, 60, 60, _, rfl⟩
+example : (stepWith (refCfg 4) (runWith (refCfg 4) init [.chan 0 1]) (.recv 0 .V .hex 9 7 .callok 1)).2 =
+    .recv true 0 7 0 7 7 1 (some (some 1, 1)) := by decide
+example : (stepWith { refCfg 4 with memoChan := .dst } (runWith (refCfg 4) init [.chan 0 1]) (.recv 0 .V .hex 9 7 .callok 1)).2 =
+    .recv true 0 7 0 7 7 1 (some (some 0, 1)) := by decide
+example : (step (run init [.chan 0 1]) (.recv 0 .V .hex 9 7 .callok 1)).2 =
+    .recv true 0 7 0 7 7 1 (some (genCfg.memoChan.pick 1 0, 1)) := by decide
+example : (step (run init [.chan 0 1]) (.recv 0 .X .hex 9 7 .none 0)).2 = .recv false 0 0 0 0 0 0 none := by decide
+example : (stepWith (refCfg 4) (runWith (refCfg 4) init [.chan 0 1]) (.recv 0 .A .hex 9 7 .none 0)).2 = .recv false 0 0 0 0 0 0 none := by
+  decide
+example : (stepWith { refCfg 4 with aliasFirst := true } (runWith (refCfg 4) init [.chan 0 1]) (.recv 0 .A .hex 9 7 .none 0)).2 =
+    .recv true 0 7 0 7 7 0 none := by decide
+example : (step (run init [.chan 0 7, .fund 5 .N 0 100, .csend 0 5 .N 60, .settle 0 1 .ackOk]) (.recv 0 .N .hex 9 60 .none 0)).2 =
+    .recv true 0 60 0 0 60 0 none := by decide
+example : (step (run init [.chan 0 7, .fund 5 .U 0 100, .csend 0 5 .U 60, .settle 0 1 .ackOk]) (.recv 0 .U .hex 9 60 .none 0)).2 =
+    .recv false 0 0 60 0 0 0 none := by decide
+example : (run init [.chan 0 1, .fund 5 .A 0 100, .send 0 5 .A 40, .settle 0 1 .ackErr]).ctl.refundLog = [⟨0, 1, 5, .A, 40, true⟩] := by
   decide
 
 /-
 Theorems of this file:
-  recv_credit_or_error, recv_bech_nonnative_error, recv_memo_call,
+  genCfg_recvOk, genCfg_sound, genCfg_removes,
+  recv_credit_or_error, recv_bech_nonnative_error, recv_memo_call, recv_keeps_bookkeeping,
   intermediate_sender_shape, intermediate_sender_preimage_injective, intermediate_sender_not_local,
-  genCfg_sound, refund_exactly_once, evm_refund_credits_erc20,
-  relation_removed_on_failure_partial, relation_removed_always, relation_removed_always_reachable,
+  memo_channel_end, memo_call_sender_flow, memo_call_sender_not_local, memo_sender_distinct_per_local_channel,
+  memo_sender_collision_across_counterparties, memo_sender_distinct_per_local_channel_partial,
+  refund_exactly_once, evm_refund_credits_erc20, evm_send_refund_roundtrip, cosmos_refund_in_bank_form, alias_metadata_refund_stuck, alias_metadata_refund_stuck_witness,
+  relation_removed_on_failure_partial, relation_removed_always, settle_touches_only_its_record,
+  relation_removed_always_reachable, relation_records_are_inflight, evm_transfer_settled_one_way,
   genCfg_is_ref, success_ack_keeps_relation_witness, success_ack_removes_relation_fixed,
-  success_ack_keeps_relation_general, settled_is_final
-On the unrepaired tree (ackSuccessDeletePrefix = 7) `relation_removed_always` (and its corollary
-`relation_removed_always_reachable`) do not check; everything else does.
+  success_ack_keeps_relation_general, crossed_channels_wrong_end_witness, returning_native_coin_guard_witness,
+  settled_is_final, relation_key_text, relation_key_injective, send_records_own_key, erc20_supply_backed
 -/
 
 end FxVerif.Props.C19
